@@ -405,6 +405,8 @@ func recheck(h HuntHit) *HuntHit {
 		f = knownWitness(h.Site)
 	case "stale":
 		f = staleCheck(strings.TrimSuffix(h.Site, "(reused receiver)"), h.Kind, h.Order, h.K)
+	case "alias", "inplace", "inplace-vec":
+		f = recheckAlias(h)
 	default:
 		f = checkPoint(h.Site, h.Kind, h.Order, h.Xs, h.Par, h.K)
 	}
@@ -489,6 +491,10 @@ func hunt(o Opts) {
 	sh, sc := staleHunt()
 	hits = append(hits, sh...)
 	count += sc
+	// receiver = operand aliasing: every method x {generic, concrete} x alias pattern; in-place programs (alias.go)
+	ah, ac := aliasHunt(o.Seed, npts/20)
+	hits = append(hits, ah...)
+	count += ac
 	// known-defect witnesses (replayed on every run)
 	for _, site := range []string{"Set:order-assigned-before-Alloc", "LogErfc:second-derivative-overflow"} {
 		if f := knownWitness(site); f != "" {
